@@ -123,7 +123,8 @@ reg("C02",
     "N^(-D/2) C^(-dod) <= (U_tr/U)^(D/2)(V_tr/V)^dod <= (N/c_min)^dod (monotonicity of rpow; non-vacuity example). The premise on U is now a theorem "
     "(C02U.lean: U_premises - for a successful run of the model's sampler U_tr <= U <= N_T U_tr with U the sum over the complements of spanning forests; ratio_bounds_U "
     "leaves only the two premises on V), from C07.uTrop_is_largest_monomial; V_upper: V <= C_sum V_tr from C07.mass_terms_le + momentum_terms_le for F a non-negative combination of those monomials. "
-    "Still cited: F is that combination (2-forest formula, C09) and, for the lower premise, attainment of u_trop*v_trop by a monomial of F when spanning is lost at a massless edge. On the real code the "
+    "Attainment of u_trop*v_trop by a monomial of F (C07.uv_is_monomial, two different externals) gives the lower premise once F is known to be that combination with coefficients >= c_min "
+    "(2-forest formula, C09, cited). On the real code the "
     "bounds and the ratio interval are checked with exact N_T, c_min, C_sum at uniform, corner and rare-sector points (kappa<=1e8).",
     "Conditional on the 2-forest identity and greedy optimality for V (cited); that the cotree sum is the returned u is C08.",
     "Lean 4 conditional theorem + exact rational oracle on the real code",
@@ -145,9 +146,11 @@ reg("C07",
     "(uv_trop; majorization + polytope_max: every exponent vector satisfying the polytope inequalities along the removal order has monomial <= u_trop*v_trop), and EVERY monomial of F "
     "satisfies them: mass terms x_e0 prod_C x (mass_terms_le) and momentum terms = complements of spanning 2-forests separating two externals (momentum_terms_le, via loopNumber_drop_iff "
     "and a connectivity-transfer argument); attained when spanning is lost at a massive edge (uv_decomposition); all premises hold for tables with the flags of preEntry (premises_of_preEntry). "
-    "Cited: attainment by a monomial of F when spanning is lost at a massless edge (Schultka 2018; Borinsky 2020 Thm 8.1). Both tropical values are decided on the real code by brute force over all spanning trees / F monomials (exact), "
+    "Attainment (C07Attain.lean): uv_is_monomial - for every graph with two different external vertices u_trop*v_trop = x_e* prod_(greedy cotree) x and either e* is massive (mass term) or "
+    "greedy cotree + e* is the complement of a spanning 2-forest separating two externals (momentum term; forest_conn, split_persist, uv_attained_momentum): v_trop is EXACTLY the largest monomial of F/U. "
+    "Both tropical values are decided on the real code by brute force over all spanning trees / F monomials (exact), "
     "together with the sector formula (mpmath) and the normalisation.",
-    "Attainment of u_trop*v_trop by a monomial of F in the massless case cited; that 2-forests with separated externals are F's momentum terms is C09 (cited); powf accuracy measured.",
+    "That the mass terms and the 2-forests with separated externals are exactly F's monomials for generic kinematics is the 2-forest formula (C09, cited); graphs with fewer than two different external vertices have no generic kinematics (DESIGN 8.2); powf accuracy measured.",
     "Lean 4 theorems (law-free + real) + differential correspondence on the debug log + brute-force exact oracle",
     "DESIGN.md §3 C07")
 
